@@ -21,6 +21,7 @@ import (
 	"sort"
 	"strconv"
 	"strings"
+	"sync/atomic"
 	"time"
 
 	"github.com/matrix-org/gomatrixserverlib/fclient"
@@ -364,6 +365,107 @@ func init() {
 		}
 		c.Close()
 		return final, B("allow")
+	})
+
+	// End-to-end: a real connection attempt to a loopback listener through the code paths that
+	// carry the policy. Input args: [mode; target; nallow; allow...; deny...]; the final args are
+	// [mode; target; network; address handed to the dialer; nallow; allow...; deny...].
+	//   mode:   cache         DNSCache.DialContext (resolver stubbed through the overlay)
+	//           client-cache  NewClient(WithDNSCache, WithAllowDenyNetworks): an HTTPS round trip
+	//           client        NewClient(WithAllowDenyNetworks), no DNS cache
+	//   target: ip4 | ip6 | mapped ([::ffff:127.0.0.1]) | name4 | name6 (host name resolving to the
+	//           listener) | retry4 (cached entry is dead, DialContext deletes it and resolves again)
+	// Observable: allow = the listener accepted a connection, deny = it did not.
+	RegisterImpl("C16.dial_e2e", func(args [][]byte) ([][]byte, []byte) {
+		if len(args) > 3 && (string(args[2]) == "tcp4" || string(args[2]) == "tcp6") {
+			args = append(append([][]byte{}, args[:2]...), args[4:]...) // replay: final form back to input form
+		}
+		mode, target := string(args[0]), string(args[1])
+		allow, deny := splitLists(args, 2)
+		v6 := target == "ip6" || target == "name6"
+		lnet, laddr := "tcp4", "127.0.0.1:0"
+		if v6 {
+			lnet, laddr = "tcp6", "[::1]:0"
+		}
+		ln, err := net.Listen(lnet, laddr)
+		if err != nil {
+			return args, B("nolisten")
+		}
+		defer ln.Close()
+		var accepted int32
+		go func() {
+			for {
+				c, err := ln.Accept()
+				if err != nil {
+					return
+				}
+				atomic.AddInt32(&accepted, 1)
+				c.Close()
+			}
+		}()
+		_, port, _ := net.SplitHostPort(ln.Addr().String())
+		listenIP := "127.0.0.1"
+		if v6 {
+			listenIP = "::1"
+		}
+		answer := listenIP // what the stub resolver says for host names
+		resolver := func(host string) ([]net.IPAddr, error) {
+			if ip := net.ParseIP(host); ip != nil {
+				return []net.IPAddr{{IP: ip}}, nil
+			}
+			return []net.IPAddr{{IP: net.ParseIP(answer)}}, nil
+		}
+		hostport := map[string]string{"ip4": "127.0.0.1:" + port, "ip6": "[::1]:" + port, "mapped": "[::ffff:127.0.0.1]:" + port,
+			"name4": "verif-loopback.test:" + port, "name6": "verif-loopback6.test:" + port, "retry4": "verif-retry.test:" + port}[target]
+		if mode == "client" && (target == "name4" || target == "name6") {
+			hostport = "localhost:" + port // no stub without a cache: the system resolver (hosts file)
+		}
+		ctx, cancel := context.WithTimeout(context.Background(), 3*time.Second)
+		defer cancel()
+		// the address handed to the dialer and so to the control function
+		dialled := net.JoinHostPort(listenIP, port)
+		network := "tcp4"
+		if v6 {
+			network = "tcp6"
+		}
+		switch mode {
+		case "cache", "client-cache":
+			cache := fclient.VerifNewDNSCache(8, time.Minute, allow, deny, resolver)
+			// DNSCache.DialContext builds the address as addr.String() + ":" + port
+			dialled = listenIP + ":" + port
+			if target == "retry4" {
+				answer = "127.0.0.2" // nothing listens there
+				cache.VerifLookup("verif-retry.test")
+				answer = "127.0.0.1"
+			}
+			if mode == "cache" {
+				if c, err := cache.DialContext(ctx, "tcp", hostport); err == nil {
+					c.Close()
+				}
+			} else {
+				cl := fclient.NewClient(fclient.WithDNSCache(cache), fclient.WithAllowDenyNetworks(allow, deny), fclient.WithSkipVerify(true), fclient.WithTimeout(3*time.Second))
+				if req, err := http.NewRequest("GET", "matrix://"+hostport+"/_matrix/federation/v1/version", nil); err == nil {
+					if resp, err := cl.DoHTTPRequest(ctx, req); err == nil {
+						resp.Body.Close()
+					}
+				}
+			}
+		case "client":
+			cl := fclient.NewClient(fclient.WithAllowDenyNetworks(allow, deny), fclient.WithSkipVerify(true), fclient.WithTimeout(3*time.Second))
+			if req, err := http.NewRequest("GET", "matrix://"+hostport+"/_matrix/federation/v1/version", nil); err == nil {
+				if resp, err := cl.DoHTTPRequest(ctx, req); err == nil {
+					resp.Body.Close()
+				}
+			}
+		}
+		for i := 0; i < 25 && atomic.LoadInt32(&accepted) == 0; i++ {
+			time.Sleep(2 * time.Millisecond)
+		}
+		final := append([][]byte{args[0], args[1], B(network), B(dialled)}, args[2:]...)
+		if atomic.LoadInt32(&accepted) > 0 {
+			return final, B("allow")
+		}
+		return final, B("deny")
 	})
 
 	// [status; cl; cc; expires_unix(filled); bodymode; body; now(filled); expires header]
@@ -1130,7 +1232,52 @@ func c16Ops(corr, prop string) (string, string) {
 	return corr, prop
 }
 
+// connections really attempted, through DNSCache.DialContext and through NewClient, to listeners
+// on 127.0.0.1 and [::1]: by IP literal, by IPv4-mapped literal, by a name resolving there and
+// over the DialContext retry path. The oracle is control_allows_iff on the address dialled.
+func genC16Dial(c *Ctx) {
+	ctlOp, ctlProp := c16Ops("C16.dial", "C16.prop.dial")
+	if ln, err := net.Listen("tcp4", "127.0.0.1:0"); err != nil {
+		c.Count("dial_e2e.skipped-no-loopback")
+		return
+	} else {
+		ln.Close()
+	}
+	have6 := false
+	if ln, err := net.Listen("tcp6", "[::1]:0"); err == nil {
+		ln.Close()
+		have6 = true
+	}
+	lists := [][2][]string{
+		{{"0.0.0.0/0", "::/0"}, {}},
+		{{"0.0.0.0/0", "::/0"}, {"127.0.0.0/8", "::1/128"}},
+		{{"0.0.0.0/0", "::/0"}, {"bad", "127.0.0.0/8", "::1/128"}},
+		{{"10.0.0.0/8"}, {}},
+		{{"127.0.0.1/32", "::1/128"}, {"10.0.0.0/8"}},
+		{{"127.0.0.0/8"}, {"127.0.0.1/32"}},
+		{{"::/0"}, {}},
+		{{"0.0.0.0/0"}, {"::ffff:127.0.0.0/104"}},
+	}
+	for _, mode := range []string{"cache", "client-cache", "client"} {
+		for _, target := range []string{"ip4", "mapped", "name4", "retry4", "ip6", "name6"} {
+			if (target == "ip6" || target == "name6") && !have6 {
+				c.Count("dial_e2e.skipped-no-ipv6-loopback")
+				continue
+			}
+			if mode == "client" && (target == "retry4" || target == "name6") {
+				continue // no cache: no retry path, and no stub to make a name resolve to ::1
+			}
+			for _, l := range lists {
+				a := append(Args(mode, target, strconv.Itoa(len(l[0]))), Args(append(append([]string{}, l[0]...), l[1]...)...)...)
+				out := c.Run("C16.dial_e2e", a, ctlOp, ctlProp, "end-to-end dial "+mode+" "+target)
+				c.Count("dial_e2e." + mode + "." + target + "=" + string(out))
+			}
+		}
+	}
+}
+
 func genC16(c *Ctx) {
+	genC16Dial(c)
 	genC16Net(c)
 	genC16Control(c)
 	genC16WellKnown(c)
